@@ -69,7 +69,7 @@ def c06_r1(ctx):
             for val in ("docmap[docnum]", "docnum + startdoc"):
                 if B.eq(a, "newdoc = %s" % val):
                     nd[val] = sorted(t for t in (fa2.at(n) or []) if "docmap" in t[1])
-    ctx.ob(pp, nd.get("docmap[docnum]") == [("T", "(None is not docmap)")] and nd.get("docnum + startdoc") == [("F", "(None is not docmap)")],
+    ctx.ob(pp, nd.get("docmap[docnum]") == [("F", "(None is docmap)")] and nd.get("docnum + startdoc") == [("T", "(None is docmap)")],
            "postings are renumbered through docmap when it exists, else by startdoc + docnum", detail=str(nd))
     ys = [y.value for y in ast.walk(pp.node) if isinstance(y, ast.Yield)]
     lps = [lp for lp in ast.walk(pp.node) if isinstance(lp, ast.For) and B.eq(lp, "for fieldname, text, docnum, weight, vbytes in items: ANY")] if False else \
